@@ -384,6 +384,45 @@ def check_ts(run: Run, prog: Program, rnd: Round) -> None:
                    edge_ok=pruned(cfg, lifted(fl, rnd.first_run_atom(fl, True)), normal_only=False))
     run.check(bool(syncs) and wit is None, "C06.TS", fn.qual, "first run -> synchronise",
               "the first round does not synchronise the inputs", node=fn.node, file=fn.file, path=cfg.describe_path(wit))
+    # ... and on the first run the emitted timestamp is the one the inputs were synchronised to
+    memo: dict[int, Any] = {}
+
+    def first_scn(flow: Flow) -> Any:
+        if id(flow) not in memo:
+            base = rnd.first_run_atom(flow, True)
+
+            def atom(e: ast.AST, nid: int) -> Tri:
+                v = base(e, nid)
+                if v is None:
+                    ta = truth_atom(e)
+                    if ta is not None:  # the synchronisation returns a timestamp, never None (C06.SYNC)
+                        o = flow.origin(ta[0], nid, through_helpers=False, scenario=first_scn)
+                        if o and all(q.kind == "expr" and isinstance(q.node, ast.Await) and isinstance(q.node.value, ast.Call)
+                                     and _is_sync_call(q.node.value) for q in o):
+                            return not ta[1]
+                return v
+
+            memo[id(flow)] = pruned(flow.cfg, lifted(flow, atom), normal_only=False)
+        return memo[id(flow)]
+
+    stale: list[str] = []
+    seen_first = 0
+    for s in sites:
+        if any(f2.cfg.path(f2.cfg.entry, [n2], edge_ok=first_scn(f2)) is None for f2, n2 in s.chain):
+            continue
+        ts = s.args(["timestamp", "value"]).get("timestamp")
+        leaves = s.flow.origin(ts, s.nid, scenario=first_scn) if ts is not None else []
+        seen_first += 1
+        stale += [f"{u(s.call)}: timestamp <- {o.text()}" for o in leaves
+                  if not (o.kind == "expr" and isinstance(o.node, ast.Await) and isinstance(o.node.value, ast.Call)
+                          and _is_sync_call(o.node.value))]
+        if not leaves:
+            stale.append(f"{u(s.call)}: timestamp of unknown origin")
+    run.check(seen_first > 0 and not stale, "C06.TS", fn.qual, "first run: emitted timestamp <- the synchronised timestamp",
+              "on the first run the emitted sample is not stamped with the timestamp the inputs were synchronised to "
+              "(the result of the synchronisation is not what reaches the Sample): the value is computed from the "
+              "inputs of the latest first timestamp but labelled with some input's own first timestamp"
+              + (f" ({'; '.join(stale[:2])})" if stale else ""), node=fn.node, file=fn.file)
     # evaluator state: _first_run written only in __init__ (True) and by the synchronisation (False)
     cls = prog.cls(FE)
     writes = []
@@ -418,7 +457,7 @@ def check_ts(run: Run, prog: Program, rnd: Round) -> None:
 
 
 # ---------------------------------------------------------------------------------------------
-def check_sync(run: Run, prog: Program) -> None:
+def check_sync(run: Run, prog: Program, rule: str = "C06.SYNC") -> None:
     raw = prog.func(f"{FE}.{SYNC}")
     run.analysed(raw.qual)
     fn = spliced(prog, raw)
@@ -513,7 +552,7 @@ def check_sync(run: Run, prog: Program) -> None:
         # the grouping is complete before the latest timestamp is taken
         ok = ok and bool(latest_calls) and all(
             cfg.path(fl.node_of(c), [ins], include_src=False) is None for c in latest_calls)
-    run.check(ok, "C06.SYNC", raw.qual, "group by first timestamp; latest = max",
+    run.check(ok, rule, raw.qual, "group by first timestamp; latest = max",
               "inputs are not grouped by their first timestamp with the latest one as the target",
               node=raw.node, file=raw.file)
 
@@ -640,7 +679,7 @@ def check_sync(run: Run, prog: Program) -> None:
                     gt = pruned(cfg, lifted(fl, rel_atom("gt")))
                     ok = bool(wfalse) and all(m != o_id and cfg.path(m, [o_id, cfg.exit], edge_ok=gt) is None for m in wfalse)
                     detail = "overshooting the target timestamp is not an error"
-    run.check(ok, "C06.SYNC", raw.qual, "while ts < latest: for name in names: fetch_next()", detail,
+    run.check(ok, rule, raw.qual, "while ts < latest: for name in names: fetch_next()", detail,
               node=raw.node, file=raw.file)
     # ---- S3: _first_run cleared only after the group loop completed normally
     clr = [n.id for n in cfg.nodes if n.id in fl.live and any(
@@ -653,14 +692,14 @@ def check_sync(run: Run, prog: Program) -> None:
             and cfg.path(cfg.entry, clr, avoid=[o_id]) is None \
             and clr[0] not in cfg.reachable(body0, avoid=[o_id]) \
             and all(lab == "done" for m, lab in cfg.succ[o_id] if clr[0] in cfg.reachable([m], avoid=[o_id]))
-    run.check(ok, "C06.SYNC", raw.qual, "_first_run = False only after all groups are synchronised",
+    run.check(ok, rule, raw.qual, "_first_run = False only after all groups are synchronised",
               "the first-run flag is cleared before the synchronisation completed (a failed "
               "synchronisation would never be retried)", node=raw.node, file=raw.file)
     # ---- S4: the synchronised timestamp is what is returned
     rets = fl.returns()
     ok = bool(rets) and bool(latest_calls) and all(
         cfg.nodes[r].ast.value is not None and is_latest(cfg.nodes[r].ast.value, r) for r in rets)  # type: ignore[union-attr]
-    run.check(ok, "C06.SYNC", raw.qual, "returns the latest first timestamp",
+    run.check(ok, rule, raw.qual, "returns the latest first timestamp",
               "the synchronised timestamp is not the one returned", node=raw.node, file=raw.file)
 
 
